@@ -1,10 +1,11 @@
-import common, p_vxbase
+import common, p_vxbase, cli_slices
 
 ASSUME = ["paths are normalised relative paths inside the stated universe",
           "verif::index_edges reads the graph back through render_dotfile; the CLI slice (target render) must agree with it"]
 
 def run(prop, tier):
     r = common.run_vx("c10", tier)
+    cli_slices.merge(r, prop, tier)
     return r, ASSUME
 
 def replay(prop, path):
